@@ -318,6 +318,14 @@ def wid1(ctx, c):
                 pb = kw.get("post_byte")
                 c.check(isinstance(pb, Ctor) and pb.cls == "NumericValue", site + ":post_byte", "post byte emitted", "post_byte = %r" % pb, "SpecialOperand emits no post byte", where)
     c.floor("simple translate() returns", n, 6)
+    # address fix-up sink: the label's address object is emitted as the operand, at whatever width it renders itself
+    fa = repo.method("Statement", "fix_addresses")
+    from ..inline import flatten as _fl
+    for n in ast.walk(_fl(repo, fa, depth=2)):
+        if isinstance(n, ast.Assign) and U(n.targets[0]).endswith("code_pkg.additional") and re.fullmatch(r"statements\[[^\]]+\]\.code_pkg\.address", U(n.value)):
+            c.finding("Statement.fix_addresses:address-operand", "the target statement's address object is emitted as the operand at its own width",
+                      "fix_addresses substitutes `%s` for a label operand: that NumericValue renders one byte for addresses below $100, so JMP L with L < $100 emits 2 bytes in a 3-byte statement"
+                      % U(n.value), repo.loc(fa, n))
     # WID-4: hex() can be longer than hex_len()
     hx = repo.method(NV, "hex", inherited=False)
     hl = repo.method(NV, "hex_len", inherited=False)
